@@ -2,7 +2,7 @@
 """Fill seeded/<id>/meta.json 'checks' from the side-run logs (/root/mut/run*.log): which quick checks reported the change."""
 import json, os, re, glob, collections
 res = collections.defaultdict(dict)
-for f in sorted(glob.glob("/root/mut/run*.log")) + sorted(glob.glob("/root/mut/final*.log")):
+for f in sorted(glob.glob("/root/mut/run*.log") + glob.glob("/root/mut/final*.log"), key=os.path.getmtime):  # later runs override earlier ones
     for line in open(f):
         m = re.match(r"^(\S+) (C\d\d) rc=(\d+) viol_lines=(\d+) :: (.*?) :: ", line)
         if m:
